@@ -47,6 +47,19 @@ func main() {
 	}
 }
 
+// setStackCap: workloads whose generators can recurse 100 000 Starlark frames
+// deep (the interpreter's own limit; C03, C05, C07 use the general program
+// generator with the Recursion option) need the Go default of 1 GB. The
+// template-based workloads never recurse deeply, so runaway Go recursion in the
+// code under test (a Freeze or String that lost its cycle guard) is made to
+// die — and be reported — quickly.
+func setStackCap(prop string) {
+	switch prop {
+	case "C04", "C06", "C12", "C20":
+		debug.SetMaxStack(128 << 20)
+	}
+}
+
 func verifDir() string {
 	if d := os.Getenv("VERIF_DIR"); d != "" {
 		return d
@@ -154,6 +167,7 @@ func cmdWorker(args []string) int {
 		fmt.Fprintln(os.Stderr, "unknown property", *prop)
 		return 2
 	}
+	setStackCap(*prop)
 	start := time.Now()
 	wo := &workerOut{From: *from, To: *to, Next: *from, Counters: map[string]int64{}}
 	nontriv := map[uint64]bool{}
@@ -841,6 +855,7 @@ func cmdReplay(args []string) int {
 		fmt.Fprintln(os.Stderr, "unknown property", sc.Prop)
 		return 2
 	}
+	setStackCap(sc.Prop)
 	if sc.Expect != nil && strings.HasPrefix(sc.Expect.Class, "nondeterministic:fresh-process") && sc.N != nil && sc.N["fresh"] < 24 {
 		// A divergence that depends on the production hash seed shows in a
 		// fraction of processes only (it cannot be seeded): sample more of them.
